@@ -9,6 +9,7 @@ Close Scope Q_scope.
 Section WithTable.
 Variable t : ranks.
 Hypothesis ROK : ranks_ok t = true.
+Variable cu : list N -> N.   (* the class table: __qualname__ -> class *)
 
 (* ---- what ranks_ok gives ----------------------------------------------------------------- *)
 Lemma distinct_NoDup l : distinct l = true -> NoDup l.
@@ -37,16 +38,16 @@ Proof.
 Qed.
 
 Definition cls_wf (c : cls) : Prop :=
-  match c with CObj n => name_ok t n = true | CEnt => False | _ => True end.
+  match c with CObj n u => name_ok t n = true /\ u = cu n | CEnt => False | _ => True end.
 
 Lemma crank_inj c d : cls_wf c -> cls_wf d -> crank t c = crank t d -> c = d.
 Proof.
   destruct rank_facts as (_ & _ & ND).
   repeat match goal with H : NoDup (_ :: _) |- _ => inversion H; clear H; subst end.
   destruct c, d; simpl; intros W1 W2 E; try reflexivity; try contradiction;
-    try (apply name_ok_spec in W1; unfold all_ranks in W1; simpl in W1);
-    try (apply name_ok_spec in W2; unfold all_ranks in W2; simpl in W2);
-    try (f_equal; assumption);
+    try (match type of W1 with _ /\ _ => destruct W1 as [W1 U1]; apply name_ok_spec in W1; unfold all_ranks in W1; simpl in W1 end);
+    try (match type of W2 with _ /\ _ => destruct W2 as [W2 U2]; apply name_ok_spec in W2; unfold all_ranks in W2; simpl in W2 end);
+    try (subst; reflexivity);
     exfalso; simpl in *; intuition congruence.
 Qed.
 
@@ -62,7 +63,7 @@ Qed.
 Definition kcls (v : pv) : cls :=
   match v with
   | PMissing => CMissing | PNone => CNone | PBool _ | PInt _ | PFlt _ _ => CNum | PStr _ => CStr
-  | PList _ _ => CList | PTuple _ => CTuple | PDict _ _ => CDict | PObj n _ => CObj n
+  | PList _ _ => CList | PTuple _ => CTuple | PDict _ _ => CDict | PObj n u _ => CObj n u
   end.
 
 Definition ent (p : key * nv) : nv := NEnt (fst p) (snd p).
@@ -78,7 +79,7 @@ Fixpoint norm (v : pv) : nv :=
   | PList _ l => NNode CList (map norm l)
   | PTuple l => NNode CTuple (map norm l)
   | PDict _ e => NNode CDict (map ent (sort_ents t (map (fun kv => (fst kv, norm (snd kv))) e)))
-  | PObj n e => NNode (CObj n) (map ent (sort_ents t (map (fun kv => (fst kv, norm (snd kv))) e)))
+  | PObj n u e => NNode (CObj n u) (map ent (sort_ents t (map (fun kv => (fst kv, norm (snd kv))) e)))
   end.
 
 Definition nent (kv : key * pv) : nv := NEnt (fst kv) (norm (snd kv)).
@@ -95,20 +96,20 @@ Proof. destruct rank_facts as (B & F & _). destruct v; simpl; auto. Qed.
 Lemma same_type_kcls a b : same_type a b = true -> kcls a = kcls b.
 Proof.
   destruct a, b; simpl; try discriminate; auto.
-  intros H. apply str_eqb_eq in H. congruence.
+  intros H. apply andb_prop in H. destruct H as [H1 H2]. apply str_eqb_eq in H1. apply N.eqb_eq in H2. congruence.
 Qed.
 
-Lemma cmp_ok_wf f v : cmp_ok t f v = true -> cls_wf (kcls v).
+Lemma cmp_ok_wf f v : cmp_ok t cu f v = true -> cls_wf (kcls v).
 Proof.
   destruct v; simpl; auto. intros H.
-  repeat (apply andb_prop in H; destruct H as [H ?]). exact H.
+  repeat (apply andb_prop in H; destruct H as [H ?]). split; auto. apply N.eqb_eq; auto.
 Qed.
 
 Lemma cls_eq_dec (c d : cls) : {c = d} + {c <> d}.
-Proof. decide equality. apply list_eq_dec. apply N.eq_dec. Qed.
+Proof. decide equality. apply N.eq_dec. apply list_eq_dec. apply N.eq_dec. Qed.
 
 (* values of different classes: decided by the rank strings *)
-Lemma ncmp_diff f a b : cmp_ok t f a = true -> cmp_ok t f b = true -> kcls a <> kcls b ->
+Lemma ncmp_diff f a b : cmp_ok t cu f a = true -> cmp_ok t cu f b = true -> kcls a <> kcls b ->
   ncmp t (norm a) (norm b) = str_cmp (rank t a) (rank t b) /\ str_cmp (rank t a) (rank t b) <> Eq.
 Proof.
   intros Ha Hb NE. rewrite ncmp_unfold, !ncls_norm, !rank_crank.
@@ -137,7 +138,7 @@ Proof.
   destruct f, x; intros H1; try discriminate H1; destruct y; intros H2; try discriminate H2;
     repeat split; unfold native_eq, native_lt; cbn [norm num_of]; rewrite ?ncmp_num, ?ncmp_str; reflexivity.
 Qed.
-Lemma leaf_cmp_ok f x : leaf_in_fam f x = true -> cmp_ok t f x = true /\ depth x = O.
+Lemma leaf_cmp_ok f x : leaf_in_fam f x = true -> cmp_ok t cu f x = true /\ depth x = O.
 Proof. destruct f, x; simpl; try discriminate; auto. Qed.
 
 (* ---- element-wise comparison of sequences ---------------------------------------------------- *)
@@ -283,10 +284,10 @@ Definition lt_body (n : nat) (a b : pv) : result bool :=
       | PDict _ eb => ents_lt t (eq_f n) (lt_f t n) (sort_ents t ea) (sort_ents t eb)
       | _ => Err EUnmodelled
       end
-  | PObj na ea =>
+  | PObj na ua ea =>
       match b with
-      | PObj nb eb =>
-          if str_eqb na nb then ents_lt t (eq_f n) (lt_f t n) (sort_ents t ea) (sort_ents t eb)
+      | PObj nb ub eb =>
+          if str_eqb na nb && N.eqb ua ub then ents_lt t (eq_f n) (lt_f t n) (sort_ents t ea) (sort_ents t eb)
           else Err ERecursion
       | _ => Err ERecursion
       end
@@ -303,7 +304,7 @@ Lemma lt_f_same n a b : kcls a = kcls b -> lt_f t (S n) a b = lt_body n a b.
 Proof.
   intros E. rewrite lt_f_S, !rank_crank, E, str_eqb_refl. simpl. rewrite andb_false_r. reflexivity.
 Qed.
-Lemma lt_f_diff f n a b : cmp_ok t f a = true -> cmp_ok t f b = true -> kcls a <> kcls b ->
+Lemma lt_f_diff f n a b : cmp_ok t cu f a = true -> cmp_ok t cu f b = true -> kcls a <> kcls b ->
   lt_f t (S n) a b = Ok (is_lt (str_cmp (rank t a) (rank t b))).
 Proof.
   intros Ha Hb NE. rewrite lt_f_S.
@@ -315,13 +316,14 @@ Qed.
 Lemma eq_f_diff n a b : kcls a <> kcls b -> eq_f (S n) a b = false.
 Proof.
   destruct a, b; simpl; intros NE; try reflexivity; try congruence.
-  destruct (str_eqb name name0) eqn:E; auto. apply str_eqb_eq in E. congruence.
+  destruct (str_eqb name name0) eqn:E; auto. destruct (N.eqb uid uid0) eqn:F; auto.
+  apply str_eqb_eq in E. apply N.eqb_eq in F. congruence.
 Qed.
 
-Lemma cmp_ok_ents f (e : list (key * pv)) p : forallb (fun kv => cmp_ok t f (snd kv)) e = true -> In p e -> cmp_ok t f (snd p) = true.
+Lemma cmp_ok_ents f (e : list (key * pv)) p : forallb (fun kv => cmp_ok t cu f (snd kv)) e = true -> In p e -> cmp_ok t cu f (snd p) = true.
 Proof. intros H I. rewrite forallb_forall in H. apply (H p I). Qed.
 
-Lemma link f n : forall a b, depth a < n -> cmp_ok t f a = true -> cmp_ok t f b = true ->
+Lemma link f n : forall a b, depth a < n -> cmp_ok t cu f a = true -> cmp_ok t cu f b = true ->
   eq_f n a b = is_eq (ncmp t (norm a) (norm b)) /\ lt_f t n a b = Ok (is_lt (ncmp t (norm a) (norm b))).
 Proof.
   induction n as [|n IH]; intros a b D Ha Hb; [lia|].
@@ -330,7 +332,7 @@ Proof.
       rewrite eq_f_diff, (lt_f_diff f), E1 by auto. split; auto.
       destruct (str_cmp (rank t a) (rank t b)); simpl; congruence. }
   rewrite lt_f_same by auto.
-  assert (ELEM : forall x y, depth x < n -> cmp_ok t f x = true -> cmp_ok t f y = true ->
+  assert (ELEM : forall x y, depth x < n -> cmp_ok t cu f x = true -> cmp_ok t cu f y = true ->
             eq_f n x y = is_eq (ncmp t (norm x) (norm y)) /\ lt_f t n x y = Ok (is_lt (ncmp t (norm x) (norm y)))) by (intros; apply IH; auto).
   clear IH.
   destruct a; destruct b; try discriminate EQ; cbn [norm lt_body].
@@ -359,7 +361,7 @@ Proof.
   - (* object *)
     inv EQ. cbn [cmp_ok] in Ha, Hb.
     repeat (apply andb_prop in Ha; destruct Ha as [Ha ?]). repeat (apply andb_prop in Hb; destruct Hb as [Hb ?]).
-    cbn [depth] in D. rewrite !norm_ents, ncmp_node. cbn [eq_f]. rewrite str_eqb_refl. cbn [andb]. split.
+    cbn [depth] in D. rewrite !norm_ents, ncmp_node. cbn [eq_f]. rewrite str_eqb_refl, N.eqb_refl. cbn [andb]. split.
     + apply dict_eqb_spec; auto. intros p q Ip Iq. apply ELEM; eauto using cmp_ok_ents.
       pose proof (depth_ent_In p ents Ip). lia.
     + apply ents_lt_spec. intros p q Ip Iq. apply In_sort in Ip. apply In_sort in Iq.
@@ -369,9 +371,9 @@ Qed.
 (* ---- pg.eq / pg.lt in terms of the tree order ------------------------------------------------- *)
 Definition nc (a b : pv) : comparison := ncmp t (norm a) (norm b).
 
-Lemma eq_spec f a b : cmp_ok t f a = true -> cmp_ok t f b = true -> eq a b = is_eq (nc a b).
+Lemma eq_spec f a b : cmp_ok t cu f a = true -> cmp_ok t cu f b = true -> eq a b = is_eq (nc a b).
 Proof. intros Ha Hb. unfold eq. apply (link f); auto. Qed.
-Lemma lt_spec f a b : cmp_ok t f a = true -> cmp_ok t f b = true -> lt t a b = Ok (is_lt (nc a b)).
+Lemma lt_spec f a b : cmp_ok t cu f a = true -> cmp_ok t cu f b = true -> lt t a b = Ok (is_lt (nc a b)).
 Proof. intros Ha Hb. unfold lt. apply (link f); auto. Qed.
 
 Lemma nc_refl a : nc a a = Eq. Proof. apply ncmp_refl. Qed.
